@@ -1,7 +1,7 @@
 (* Comparison functions for the kernel re-evaluation of a sample of the tie (bin/check writes a Cases.v that applies
    them to the inputs the extracted model was run on and to the answers it gave; Coq evaluates them with vm_compute).
    This cross-checks extraction and the OCaml driver, which are otherwise trusted.  Definitions only. *)
-From Spdx Require Export Model.Api.
+From Spdx Require Export Model.Api Model.ParseStack.
 Local Open Scope list_scope.
 
 Definition B (l : list nat) : str := map ascii_of_nat l.
@@ -39,6 +39,31 @@ Definition chk_r (T : tables) (e : str) (x : xr) : bool :=
   match parse T e, x with Ok _, XRok => true | Err er, _ => err_is er x | _, _ => false end.
 Definition chk_q (T : tables) (e : str) (A : list str) (x : xr) : bool :=
   match satisfies T e A, x with Ok _, XRok => true | Err er, _ => err_is er x | _, _ => false end.
+
+(* P (auxiliary stage line): the tree in the notation of node.string(), as the driver prints it; None = error.  The
+   answer must be that of the parser as written (Model/ParseStack.v) AND of the recursive model *)
+Fixpoint show_node (t : node) : str :=
+  match t with
+  | NAnd a b => s2l "{ LEFT: " ++ show_node a ++ s2l " and RIGHT: " ++ show_node b ++ s2l " }"
+  | NOr a b => s2l "{ LEFT: " ++ show_node a ++ s2l " or RIGHT: " ++ show_node b ++ s2l " }"
+  | NLic l p x => l ++ (if p then s2l "+" else []) ++ (match x with Some y => s2l " with " ++ y | None => [] end)
+  | NRef d r => (match d with Some y => s2l "DocumentRef-" ++ y ++ s2l ":" | None => [] end) ++ s2l "LicenseRef-" ++ r
+  end.
+Definition chk_p (T : tables) (e : str) (x : option str) : bool :=
+  let as_written :=
+    match e with
+    | [] => None
+    | _ => match scan T e with
+           | Ok ts => match ps_tokens ts with Ok t => Some (show_node t) | _ => None end
+           | _ => None
+           end
+    end in
+  let recursive := match parse T e with Ok t => Some (show_node t) | _ => None end in
+  match as_written, recursive, x with
+  | Some a, Some b, Some c => if str_eqb a b then str_eqb a c else false
+  | None, None, None => true
+  | _, _, _ => false
+  end.
 
 (* indices of the cases that do not evaluate to true *)
 Fixpoint failing (i : nat) (l : list bool) : list nat :=
